@@ -1552,6 +1552,35 @@ for _p in ("C04", "C05", "C08"):
     _with(_p, [F_ENCODE], lambda tier, rng: gen_odd_providers(tier, random.Random(rng.randrange(1 << 30))),
           "encode: providers whose data file is a group-aligned prefix of the blob, or longer than the blob, with the complete outboard: "
           "all five encoders send exactly what a complete provider would, up to the first group they do not hold.")
+# ---- C01 read literally under wrong claimed sizes: pairs must be the true pairs of the ids they are yielded under
+F_DECODE_IDS = Family("decode_ids", "Run.RunProto", "run_decode", "holds_decode_ids", lambda a, o: len(o) > 11 and o[9] > 0)
+F_DECODE_IDS.shard_cases = 60
+
+
+def gen_decode_ids(tier, rng):
+    cases = []
+    sizes = [2049, 3 * 1024 + 5, 5 * 1024 + 7, 6 * 1024 + 1] if tier == "quick" else [1025, 2049, 3 * 1024 + 5, 4 * 1024 + 1, 5 * 1024 + 7, 6 * 1024 + 1, 8 * 1024 + 1]
+    for size in sizes:
+        n = nchunks(size)
+        for bs in (0, 1):
+            for claimed in sorted({size, size - 1, (n - 1) * 1024, (n + 1) * 1024, 2 * n * 1024, max(1, size // 2)}):
+                for d, sk in ((0, 0), (1, 0), (2, 0), (2, 2), (3, 1)):
+                    cases.append(("decode_ids", dec_case(0, seed(rng), size, bs, claimed, d, sk, [0])[1]))
+    return cases
+
+
+def known_wrong_size_node_id(r):
+    # decode_ids: args [kind, seed, size, bs, claimed, ...]: a claimed size with a different number of chunks
+    if r["family"] != "decode_ids":
+        return False
+    a = r["args"]
+    return nchunks(a[4]) != nchunks(a[2])
+
+
+KNOWN_CLASSES["wrong_size_node_id"] = known_wrong_size_node_id
+_with("C01", [F_DECODE_IDS], lambda tier, rng: gen_decode_ids(tier, random.Random(rng.randrange(1 << 30))),
+      "decode_ids: honest streams decoded under claimed sizes around the true one (same and different chunk counts): every pair yielded / stored must be "
+      "the true pair of the node id it carries (known finding F10 for claimed sizes with a different chunk count).")
 # ---- the four validators side by side, incl. io-backed outboard stores shorter than the full outboard (finding F9)
 F_AGREE_VAL = Family("agree_val", "Run.RunProto", "run_agree_val", "holds_agree_val", lambda a, o: a[2] > 1024)
 F_AGREE_VAL.shard_cases = 60
